@@ -52,23 +52,51 @@ SEEDS = [
  ("S65", "round3/J", 4, "C08", "cpp.rs define_regex: \\\\s* allowed between the macro name and the parameter list", "an object-like macro whose body starts with a parenthesised identifier list: #define VAL (X)"),
  ("S66", "round3/J", 5, "C09", "compile.rs compile_quoted_string: terminator skipped when the string already ends with NUL", "a literal whose last decoded character is \\\\0"),
  ("S67", "round3/J", 6, "C07", "cpp.rs #ifdef/#ifndef: state = if selected {Active} else {Inactive}, losing Skip", "an #ifdef group with #else nested inside an unselected region"),
+ ("S68", "round4/L", 1, "C12", "generate_statements.rs generate_function_call: return-value clean-up returns early before the call-tree note", "a non-void callee called while A already holds the left operand: r = (a + b) + f();"),
+ ("S69", "round4/L", 2, "C12", "generate_asm.rs compute_functions_actually_in_use: the loop over interrupt handlers becomes sorted_functions().find(..interrupt)", "two or more interrupt functions: the later one and what only it reaches drop out of the in-use set"),
+ ("S70", "round4/L", 3, "C04", "generate_asm.rs asm() AbsoluteY 16-bit-table block: zero page gives 2 bytes for every mnemonic", "a zero-page short or pointer array indexed by Y with LDA/STA/ADC"),
+ ("S71", "round4/L", 4, "C04", "assemble.rs check_branches repair emission refactored into a closure: the JMP keeps nb_bytes 2", "a function with at least one repaired long branch"),
+ ("S72", "round4/L", 5, "C03", "assemble.rs check_branches restart loop: the scan resumes at the repaired branch instead of line 0", "an outer forward branch at 125..127 with, inside its span, a branch that gets repaired"),
+ ("S73", "round4/L", 6, "C03", "assemble.rs check_branches <=-pair detection: BMI and BCC arms merged, the operand-equality test lost", "a far BMI/BCC directly followed by a BEQ to another label"),
+ ("S74", "round4/K", 1, "C01", "generate_assign.rs store to an Absolute destination: flags recorded as describing the variable after the high-byte store too", "s = t; if (s) ... with values 1..255 (only the high byte is tested)"),
+ ("S75", "round4/K", 2, "C01", "generate_condition_ex: operator tables moved into negated()/swapped(); swapped(Lte) returns Gt", "operands exchanged (constant on the left, or right operand in X/Y/A): <= in loop-back tests, > in if/while, operands equal"),
+ ("S76", "round4/K", 3, "C01", "generate_ternary: ?: with alternatives of mixed signedness accepted and typed signed (was refused)", "(c ? uc : sc) >> 1 or < 5 with the unsigned alternative selected and >= 128"),
+ ("S77", "round4/K", 4, "C01", "compound-assignment arm of generate_expr: high-byte pass skipped for an unsigned 8-bit operand unless += / -=", "16-bit destination &= unsigned char variable or X/Y keeps its high byte"),
+ ("S78", "round4/K", 5, "C01", "generate_expr Identifier subscript: X and Y arms merged, the sign extension always uses AbsoluteX", "short = sca[Y] for a signed char array, sca[X] and sca[Y] of different signs"),
+ ("S79", "round4/K", 6, "C01", "purge_deferred_plusplus_and_savey: Y restored before the postponed ++ / -- are emitted", "(*p)++, p[3]++, p[i]-- with Y different from the index"),
+ ("S80", "round4/K", 8, "C02", "generate_branch_instruction Gt: the BEQ .ifhere before BCS/BPL no longer protected", "-O1: a > K as a value or || operand with A holding a known constant: CMP/BEQ folded, BCS uses a stale carry"),
+ ("S81", "round4/M", 1, "C11", "cpp.rs process(): scanning resumes one character too early after a comment opener", "a block comment that begins /*/ : the opener is read as the closer"),
+ ("S82", "round4/M", 2, "C11", "cpp.rs splice loop: backslash-newline becomes a blank instead of vanishing", "a splice between a function-like macro's name and its ( in the #define"),
+ ("S83", "round4/M", 3, "C06", "cpp.rs: last_line_unterminated replaced by a per-physical-line flag checked at the end of process()", "an included file whose unterminated last line emits nothing (guard #endif, comment), then any error after the #include"),
+ ("S84", "round4/M", 4, "C06", "compile.rs syntax_error/compiler_error/warning: helper using [..loc].lines().count() - 1", "an error offset at column 0 of a line other than the first"),
+ ("S85", "round4/M", 5, "C16", "generate_switch: 'is last case' test hoisted to &cases[cases.len() - 1]", "an empty switch body (all cases removed by #ifdef)"),
+ ("S86", "round4/M", 6, "C16", "generate_csleep_statement: default arm composes any cycle count in a while remaining != 0 loop", "csleep(1) or csleep(-n): compile() spins forever"),
+ ("S87", "round4/N", 1, "C02", "assemble.rs optimize STA/STX/STY arm: a store forgets a belief only if the operand text is equal or the store is indexed", "i = buf[X]; buf[2] = Y; j = buf[X]; with X == 2"),
+ ("S88", "round4/N", 2, "C02", "assemble.rs optimize new rule: CLC/SEC removed when the carry is known from a not-taken BCS/BCC; knowledge kept across JSR", "if (i < 10) { f(); k = i + 1; } where f returns with C = 1"),
+ ("S89", "round4/N", 3, "C02", "assemble.rs optimize remove_both epilogue: register reset after a folded compare dropped", "a CPX #k / BNE folded inside a loop, beliefs cross the label that follows"),
+ ("S90", "round4/N", 4, "C18", "generate_csleep_statement: csleep 11..30 added; the greedy remainder fill loses one cycle", "n = 11, 13, 18, 20, 25, 27 burn n-1 cycles"),
+ ("S91", "round4/N", 5, "C18", "assemble.rs append_code: every inlined instruction gets protected = false", "csleep(7); csleep(7); or two loads in an inline function at -O1"),
+ ("S92", "round4/N", 6, "C17", "generate_asm.rs new port_offset(): reading mnemonics listed explicitly, CPX/CPY forgotten", "if (X == s) on a superchip / 3E / 3E+ variable reads the write port"),
+ ("S93", "round4/N", 7, "C15", "Variable::is_16bits unifies three 16-bit tests and drops ShortPtr from the compound-assignment one", "a[1] += k on a short array updates only the low byte when it carries"),
 ]
 CONTROLS = [("K01", "round2/E", 1, "cpp.rs: three-valued State enum replaced by two booleans"), ("K02", "round2/E", 2, "renamed generated local labels"),
             ("K03", "round2/E", 3, "new peephole rule: unreachable instruction after RTS/RTI removed"), ("K04", "round2/E", 4, "different instruction selection for X = Y / Y = X while the accumulator is in use"),
             ("K05", "round2/E", 5, "message rewording and listing-comment format"), ("K06", "round2/E", 6, "internal data structures"),
             ("K07", "round3/G", 6, "compile.rs: location() and create_literal_variables() helpers (pure deduplication)"), ("K08", "round3/H", 6, "generate_branch_instruction Gt: BCC/BMI .ifhere; BNE L instead of BEQ .ifhere; BCS/BPL L"),
+            ("K11", "round4/L", 7, "check_branches: reach = 128 for backward branches (a backward branch at exactly 128 is no longer rewritten)"), ("K12", "round4/K", 7, "v += 1 / v -= 1 on an 8-bit memory destination become INC / DEC"),
+            ("K13", "round4/M", 7, "find() instead of splitn(), line scan extracted into a helper, i + 1 == len"), ("K14", "round4/N", 8, "new sound peephole rule: CLC/SEC removed when the carry is known, knowledge dropped at JSR/JMP/RTS/labels"),
             ("K09", "round3/I", 7, "csleep(9): NOP; NOP; DEC DUMMY instead of DEC DUMMY; NOP; NOP"), ("K10", "round3/J", 7, "several small refactors of -D parsing, undefine, #ifdef state match, folding")]
 REBASED = {("round2/C", 2): "rebased/C_patch_2.diff", ("round3/G", 6): "rebased/G_patch_6.diff", ("round3/J", 7): "rebased/J_patch_7.diff"}
 
 conf = {}
-for fn in ("seed_confirm2.log", "seed_confirm3.log"):
+for fn in ("seed_confirm2.log", "seed_confirm3.log", "seed_confirm4.log"):
     for l in open(os.path.join(W, fn)):
         try:
             o = json.loads(l)
         except ValueError:
             continue
         d = o["dir"].rstrip("/")
-        key = {"/tmp/c2r": "round2/C"}.get(d, ("round2/" if "wt2_" in d else "round3/") + d[-1])
+        key = {"/tmp/c2r": "round2/C"}.get(d, ("round2/" if "wt2_" in d else "round3/" if "wt3_" in d else "round4/") + d[-1])
         conf[(key, int(o["n"]))] = o
 farm = {}
 for fn in sys.argv[1:]:
@@ -127,7 +155,7 @@ def save(sid, srcdir, n, meta, demo=True):
 for sid, srcdir, n, prop, site, needs in SEEDS:
     c = conf.get((srcdir, n), {})
     res = farm.get((srcdir, n), {})
-    save(sid, srcdir, n, dict(id=sid, round=2 if "round2" in srcdir else 3, breaks_property=prop, site=site, needs_to_manifest=needs,
+    save(sid, srcdir, n, dict(id=sid, round=int(srcdir[5]), breaks_property=prop, site=site, needs_to_manifest=needs,
          confirmed_in_scratch_worktree=dict(applies=c.get("applies"), suite_with_patch=c.get("suite_with_patch"), demo_with_patch=c.get("demo_with_patch"),
                                             demo_without_patch=c.get("demo_without_patch"), demo_pasted_into=c.get("demo_in"), note=c.get("note"),
                                             commands=["git apply patch.diff", "cargo test --offline --lib (166 passed)", "paste demo.rs into the tests module; cargo test --offline --lib <demo name> (fails)",
